@@ -332,12 +332,15 @@ def run_check(modname, tier, seed, replay=None, workers=None):
             pending = set()
             queue = must + opt
             qi = 0
+            min_units = min(len(queue), workers * 2)
 
             def submit_more():
                 nonlocal qi
                 while qi < len(queue) and len(pending) < workers * 2:
                     u = queue[qi]
-                    if not u.get('must') and _now() > deadline:
+                    # past the wall budget only mandatory units still run -- but never fewer than one
+                    # round of units, so that a slow start-up cannot turn into an empty (vacuous) pass
+                    if not u.get('must') and _now() > deadline and qi >= min_units:
                         qi = len(queue)
                         break
                     pending.add(pool.submit(_worker_run, u))
@@ -357,6 +360,9 @@ def run_check(modname, tier, seed, replay=None, workers=None):
 
     if harness_error:
         print('HARNESS-ERROR %s' % harness_error)
+        return 2
+    if total['evals'] == 0:
+        print('HARNESS-ERROR no run was executed (a pass over nothing is not a pass)')
         return 2
 
     # 3. triage violations
